@@ -1,17 +1,59 @@
 (* C01 — Replicas converge under any delivery order, duplication, chunking and loss.
    PARTIAL: what is proved here is the CRDT layer (Model/Crdt.v, a model of
    cr-sqlite's merge earned by differential testing against the real extension):
-   duplication is harmless, changes to different rows are independent of order, a
+   CONVERGENCE of that layer -- two nodes that merged the same change records, in any
+   order and any number of times each, show identical tables and identical per-cell
+   versions, and what they show is an order-free function of the record set
+   (Model/CrdtSpec.v); records that were superseded may even be missing on one side --
+   plus: duplication is harmless, changes to different rows are independent of order, a
    row's causal length never goes back, and a node never shows a value that no
-   merged record carried.  The replication layers the convergence argument rests on
+   merged record carried.  The replication layers the cluster-level argument rests on
    are the theorems of C02 (exact advertisement), C03 (seq ranges), C04 (requests
    are complete), C05 (answers are exact), C06 (restart), C07 (local versions),
    C08 (tiling), C10 (nothing lost for good).  The cluster-level statement itself is
    checked on clusters of real agents (see the evidence), not proved. *)
 From Coq Require Import List ZArith Bool Lia.
-From Corro Require Import Model.Crdt Proofs.CrdtProofs.
+From Corro Require Import Model.Crdt Model.CrdtSpec Proofs.CrdtProofs Proofs.ConvergeProofs.
 Import ListNotations.
 Open Scope Z_scope.
+
+(* CONVERGENCE of the CRDT layer.  rs1 and rs2 are the change records two nodes have merged,
+   in the order each node merged them: the same records (as sets -- any permutation, any
+   duplication), well-formed (causal lengths from 1, data records with a column version from
+   1, the newest generation of a live row carries the column's value: cr-sqlite writes every
+   column of an inserted row and Corrosion applies a version only as a whole).  Then both
+   nodes show byte-identical tables and identical (causal length, column version) per cell. *)
+Theorem C01_same_records_same_state : forall rs1 rs2,
+  wf rs1 -> (forall r, In r rs1 <-> In r rs2) ->
+  table (merge_all [] rs1) = table (merge_all [] rs2) /\
+  versions (merge_all [] rs1) = versions (merge_all [] rs2).
+Proof. exact converge_tables. Qed.
+Print Assumptions C01_same_records_same_state.
+
+(* ... and what they show is "the merge of everything acknowledged": per row, the greatest
+   causal length; deleted if it is even; otherwise the greatest (column version, value) among
+   the data records of that generation -- a function of the record set alone *)
+Theorem C01_state_is_the_order_free_merge : forall rs k,
+  wf rs -> option_map row_obs (dget k (merge_all [] rs)) = row_spec (on_row k rs).
+Proof. exact merge_all_spec. Qed.
+Print Assumptions C01_state_is_the_order_free_merge.
+
+Theorem C01_spec_ignores_order_and_multiplicity : forall P1 P2,
+  (forall r, In r P1 <-> In r P2) -> forallb rec_ok P1 = true -> row_spec P1 = row_spec P2.
+Proof. exact row_spec_members. Qed.
+Print Assumptions C01_spec_ignores_order_and_multiplicity.
+
+(* loss of superseded records: a node that only ever received the records that survive at
+   their origin (overwritten cells are not kept, their versions are served as cleared) shows
+   the same state as a node that saw every intermediate record *)
+Theorem C01_superseded_records_may_be_missing : forall rs1 rs2,
+  wf rs1 -> wf rs2 ->
+  (forall r, In r rs2 -> In r rs1) ->
+  (forall r, In r rs1 -> In r rs2 \/ exists r', In r' rs2 /\ r_row r' = r_row r /\ dominated r r') ->
+  table (merge_all [] rs1) = table (merge_all [] rs2) /\
+  versions (merge_all [] rs1) = versions (merge_all [] rs2).
+Proof. exact converge_superseded. Qed.
+Print Assumptions C01_superseded_records_may_be_missing.
 
 (* duplication: merging a record a second time changes nothing, whatever was
    merged in between -- for every database state and every record *)
@@ -44,6 +86,36 @@ Theorem C01_merge_is_local : forall d r k,
   dget k (merge d r) = if k =? r_row r then merge_row (dget (r_row r) d) r else dget k d.
 Proof. exact merge_get. Qed.
 Print Assumptions C01_merge_is_local.
+
+(* the hypotheses are satisfiable by a history with conflicting writes, a delete, a
+   re-insert and an update after it, merged in two different orders with duplicates; and the
+   well-formedness condition matters: a lone re-insert marker (its value never delivered)
+   leaves an order-dependent leftover *)
+Example C01_convergence_nonvacuous :
+  let a := mkRec 1 false 5 1 1 0 1 0 in      (* site 0 writes 5 *)
+  let b := mkRec 1 false 7 1 1 1 1 0 in      (* site 1 writes 7 concurrently *)
+  let x := mkRec 1 true 0 2 2 0 2 0 in       (* site 0 deletes *)
+  let s := mkRec 1 true 0 3 3 1 2 0 in       (* site 1 re-inserts: marker ... *)
+  let c := mkRec 1 false 9 1 3 1 2 1 in      (* ... and value 9 *)
+  let u := mkRec 1 false 4 2 3 0 3 0 in      (* site 0 updates to 4 *)
+  let o := mkRec 2 false 1 1 1 0 4 0 in      (* another row *)
+  let rs1 := [a; b; x; s; c; u; o] in
+  let rs2 := [u; o; c; c; a; s; x; b; b; u] in
+  (forall k, wf_row (on_row k rs1) = true) /\
+  table (merge_all [] rs1) = [(1, Some 4); (2, Some 1)] /\
+  table (merge_all [] rs2) = [(1, Some 4); (2, Some 1)] /\
+  versions (merge_all [] rs1) = versions (merge_all [] rs2) /\
+  wf_row [a; s] = false /\
+  table (merge_all [] [a; s]) <> table (merge_all [] [s; a]).
+Proof.
+  cbv zeta. split.
+  - intros k. destruct (Z.eq_dec k 1) as [->|H1]; [vm_compute; reflexivity|].
+    destruct (Z.eq_dec k 2) as [->|H2]; [vm_compute; reflexivity|].
+    unfold on_row. cbn [filter r_row].
+    destruct (1 =? k) eqn:E1; [apply Z.eqb_eq in E1; congruence|].
+    destruct (2 =? k) eqn:E2; [apply Z.eqb_eq in E2; congruence|]. reflexivity.
+  - vm_compute. repeat split; try reflexivity. intros H; discriminate H.
+Qed.
 
 Example C01_nonvacuous :
   let a := mkRec 1 false 5 1 1 0 1 0 in      (* site 0 writes 5 *)
